@@ -348,6 +348,9 @@ class ExprMixin(object):
             ((mono, coef),) = idx.terms.items()
             if coef == 1 and len(mono) == 1 and mono[0][1] == 1 and isinstance(mono[0][0], App) and mono[0][0].op == "int":
                 return mono[0][0].args[0]
+        if isinstance(idx, P) and idx.kind == "int" and not idx.is_const():
+            # an integer-valued term (a count of conditions, a position found by bisect)
+            return idx
         return None
 
     def index_by_int(self, st, items, p, node, module):
